@@ -245,7 +245,7 @@ var hostile = [][]byte{
 
 func mutate(t *rapid.T, data []byte, other []byte) ([]byte, string) {
 	d := append([]byte{}, data...)
-	class := rapid.SampledFrom([]string{"valid", "bitflip", "byteset", "offset", "truncate", "extend", "splice"}).Draw(t, "mut")
+	class := rapid.SampledFrom([]string{"valid", "bitflip", "byteset", "offset", "truncate", "extend", "splice", "gap"}).Draw(t, "mut")
 	switch class {
 	case "bitflip":
 		if len(d) > 0 {
@@ -286,6 +286,22 @@ func mutate(t *rapid.T, data []byte, other []byte) ([]byte, string) {
 				v = uint32(len(d)) + 1
 			}
 			binary.LittleEndian.PutUint32(d[i:], v)
+		}
+	case "gap":
+		// the same elements behind k filler bytes: if the data starts with a table of n offsets (a bare list of
+		// variable-size items, or a container whose first fields are variable), every offset is raised by k and k
+		// bytes are inserted behind the table
+		if len(d) >= 4 {
+			o0 := int(binary.LittleEndian.Uint32(d))
+			if o0 >= 4 && o0%4 == 0 && o0 <= len(d) && o0 <= 4*64 {
+				k := rapid.IntRange(1, 5).Draw(t, "gapk")
+				out := append([]byte{}, d[:o0]...)
+				for i := 0; i+4 <= o0; i += 4 {
+					binary.LittleEndian.PutUint32(out[i:], binary.LittleEndian.Uint32(out[i:])+uint32(k))
+				}
+				out = append(out, rapid.SliceOfN(rapid.Byte(), k, k).Draw(t, "gapfill")...)
+				d = append(out, d[o0:]...)
+			}
 		}
 	case "truncate":
 		if len(d) > 0 {
